@@ -274,6 +274,51 @@ def two_route_cases(draw, tier):
             'pre_queries': draw(st.lists(st.tuples(st.sampled_from(['minmax-energy', 'minmax-energy', 'dijkstra']), st.integers(0, 8), st.integers(0, 8)).map(list), max_size=2))}
 
 
+_TINY_SHAPES = [(2, 2, 1), (3, 1, 1), (1, 2, 2), (2, 1, 3)]
+_TINY_VALUES = [0.0, 1.0, 2.5, 1e8]
+
+
+def tiny_size(tier):
+    return sum(len(_TINY_VALUES) ** int(np.prod(sh)) for sh in (_TINY_SHAPES if tier == 'thorough' else _TINY_SHAPES[:2]))
+
+
+def tiny_case(tier, idx):
+    for sh in _TINY_SHAPES:
+        m = len(_TINY_VALUES) ** int(np.prod(sh))
+        if idx < m:
+            break
+        idx -= m
+    n = int(np.prod(sh))
+    vals = []
+    for _ in range(n):
+        vals.append(_TINY_VALUES[idx % len(_TINY_VALUES)])
+        idx //= len(_TINY_VALUES)
+    return {'F': np.array(vals).reshape(sh).tolist(), 'shape': list(sh)}
+
+
+def run_tiny(case):
+    """one tiny grid: every admissible (start, stop) pair x 5 methods x 2 neighbourhoods, and every percolation direction set"""
+    F = np.array(case['F'], float)
+    adm = [idx for idx in np.ndindex(*F.shape) if 0 <= F[idx] < THR]
+    if not adm:
+        raise Skip()
+    lat = {'family': 'cubic', 'orient': 'lower', 'params': [5, 5, 5, 90, 90, 90], 'matrix': [[5.0, 0, 0], [0, 5.0, 0], [0, 0, 5.0]]}
+    count = nt = 0
+    for a in range(len(adm)):
+        for b in range(len(adm)):
+            for method in METHODS:
+                for diag in (True, False):
+                    info = run_optimal({'lattice': lat, 'F': case['F'], 'threshold': THR, 'diagonal': diag, 'method': method, 'start': a, 'stop': b, 'default_graph': False})
+                    count += 1
+                    nt += bool(info['nontrivial'])
+    for perc in ('x', 'y', 'z', 'xy', 'xz', 'yz', 'xyz'):
+        for peaks in ([0], list(range(len(adm)))[::-1]):
+            info = run_percolate({'lattice': lat, 'F': case['F'], 'peaks': peaks, 'percolate': perc})
+            count += 1
+            nt += bool(info['nontrivial'])
+    return {'nontrivial': nt > 0, 'count': count, 'nontrivial_count': nt, 'labels': []}
+
+
 SUBS = [
     Sub(name='optimal', kind='hyp', run=run_optimal, strategy=optimal_cases,
         rule='grids with sides 1-5, energies [0,5] + blocked voxels, thresholds {1e7, 1e20, 3.0, 4.5}, 5 methods x 2 neighbourhoods, explicit and default graph; validity + cost minimality by own search',
@@ -284,4 +329,7 @@ SUBS = [
     Sub(name='two-routes', kind='hyp', run=run_optimal, strategy=two_route_cases,
         rule='periodic rings of 4-9 voxels without blocked voxels: exactly two routes between start and stop, so the five criteria disagree often',
         n={'quick': 150, 'thorough': 3000}, shards={'quick': 4, 'thorough': 16}),
+    Sub(name='enum-tiny-grids', kind='enum', run=run_tiny, size=tiny_size, case_at=tiny_case, exhaustive=True,
+        rule='complete enumeration: every grid of shape (2,2,1), (3,1,1) (quick) + (1,2,2), (2,1,3) (thorough) over energies {0, 1, 2.5, blocked} x every admissible start/stop pair x 5 methods x 2 neighbourhoods, and every percolation direction set with the first peak / all peaks (each call is one evaluation)',
+        shards={'quick': 16, 'thorough': 16}),
 ]
